@@ -330,3 +330,39 @@ def closure_captures(prog, cl):
         if rv and rv["k"] == "agg" and rv.get("closure") and norm_path(rv["closure"]) == cl.path:
             return [origins(host, o) for o in rv["ops"]]
     return []
+
+
+def enum_eq(fn, cond):
+    """for a Cond that is `<E as PartialEq>::eq(a, b)` where one side is a constant enum variant:
+    (variant name, origins of the other side); else None"""
+    if cond.kind != "call" or not (cond.call.name.endswith("PartialEq>::eq") or cond.call.name.endswith("PartialEq>::ne")):
+        return None
+    var = None
+    other = []
+    for a in cond.call.args:
+        hit = None
+        for o in origins(fn, a):
+            if o.kind == "const":
+                rv = promoted_rvalue(fn, o.const)
+                if rv is not None and rv.get("k") == "agg" and "variant" in rv:
+                    hit = rv["variant"]
+            elif o.kind == "agg" and "variant" in o.rv and not o.rv["ops"]:
+                hit = o.rv["variant"]
+        if hit is not None and var is None:
+            var = hit
+        else:
+            other += origins(fn, a)
+    if var is None:
+        return None
+    return var, other
+
+
+def true_side(fn, cond_bb, cond):
+    """edges taken when the condition (after negations / `ne`) holds"""
+    from . import cfg as _cfg
+    val = True
+    if cond.neg:
+        val = not val
+    if cond.kind == "call" and cond.call.name.endswith("::ne"):
+        val = not val
+    return _cfg.bool_edges(fn, cond_bb, val)
